@@ -518,4 +518,23 @@ func TestReplay_C18_Fixed(t *testing.T) {
 		x.checkInstant(time.Date(2024, 1, 15, 3, 0, 0, 0, time.UTC))  // Monday 03:00: closed
 		x.checkPair(time.Date(2024, 1, 13, 23, 0, 0, 0, time.UTC), time.Date(2024, 1, 14, 3, 0, 0, 0, time.UTC))
 	})
+	// the window's end time of day does not exist on the earlier instant's day (spring clock change)
+	ny, err := time.LoadLocation("America/New_York")
+	if err != nil {
+		t.Skip("no tzdata")
+	}
+	for _, cfg := range []schedCfg{
+		{weekly: true, s: 0, e: 2*3600 + 1800, startDay: time.Sunday, endDay: time.Monday, loc: ny},
+		{s: 4*3600 + 1800, e: 2*3600 + 1800, days: []time.Weekday{time.Sunday}, loc: ny},
+	} {
+		tr, err := cfg.build(false)
+		if err != nil {
+			t.Fatal(err)
+		}
+		x := &c18ctx{t: t, cfg: cfg, tr: tr, via: "constructor"}
+		vk.Guard(func() {
+			x.checkPair(time.Date(2024, 3, 10, 1, 28, 59, 0, ny), time.Date(2024, 3, 11, 2, 28, 59, 0, ny))
+			x.checkPair(time.Date(2024, 3, 11, 1, 30, 0, 0, ny), time.Date(2024, 3, 10, 17, 30, 0, 0, ny))
+		})
+	}
 }
